@@ -8,7 +8,10 @@ cd /verif
 git -C /repo worktree add --detach $W HEAD -q || exit 2
 git -C $W apply /verif/seeded/$id-$n/patch.diff || { echo "PATCH DOES NOT APPLY"; git -C /repo worktree remove --force $W; exit 2; }
 cp evidence/$id.json /tmp/st-$id-ev.json 2>/dev/null
+ls replay > /tmp/st-$id-before.txt
 VERIF_REPO=$W ./check $id quick 2>&1 | grep -E "^property=|VIOLATION|INCONCL|rapid\] (failed|panic)" | cut -c1-300 | head -5
 cp /tmp/st-$id-ev.json evidence/$id.json 2>/dev/null; rm -f /tmp/st-$id-ev.json
 git -C /repo worktree remove --force $W
-git status --short replay | grep '^??' | awk '{print $2}' | grep "${id}__" | xargs -r rm -f
+# remove only the replay files this run created
+ls replay | grep "^${id}__" | while read f; do grep -qxF "$f" /tmp/st-$id-before.txt || rm -f "replay/$f"; done
+rm -f /tmp/st-$id-before.txt
